@@ -919,7 +919,20 @@ def gen_eof_shape(rng):
                               ("hook", "hk"), ("appc", "s0", ("num", 33)), ("assigns", "s0", b"ok")])
     fin = lambda: rng.choice([[], [("finish", rng.choice([None, "F0", "F1"]))]])
     END = ("end",)
-    k = rng.choice(["lit_end", "optional_end", "loop_case_end", "try_end", "wait_end", "case_else_end", "foreach_end", "end_only", "regex_end", "end_in_case_with_data"])
+    k = rng.choice(["lit_end", "optional_end", "loop_case_end", "try_end", "wait_end", "case_else_end", "foreach_end", "end_only", "regex_end", "end_in_case_with_data",
+                    "case_inv_in_try", "end_then_handler"])
+    if k == "case_inv_in_try":
+        sep = rng.choice(b",;")
+        lab = ("re", ("seq", [("plus", ("set", [(44, 44), (59, 59)], True)), ("c", sep)]))
+        other = ("lit", bytes([59 if sep == 44 else 44]))
+        body = [("try", [("match", a), ("case", [([lab], [act()]), ([other], [act()])]), ("match", ("lit", b"z"))], ["nomatch"],
+                        [("case", [([END], [act()] + fin()), (["else"], [act()])])])]
+        p = {"outs": outs, "hooks": ["hk"], "finish_codes": fcodes, "yield_codes": [], "body": body}
+        return p, pr_prog(p)
+    if k == "end_then_handler":
+        body = [("try", [("match", a), ("match", END), act()], ["nomatch"], [("match", b), act()])] + fin()
+        p = {"outs": outs, "hooks": ["hk"], "finish_codes": fcodes, "yield_codes": [], "body": body}
+        return p, pr_prog(p)
     if k == "lit_end":
         body = [("match", a), ("match", END)] + [act()] * rng.randint(0, 2) + fin()
     elif k == "optional_end":
